@@ -16,6 +16,7 @@ pub fn run_c10(run: &mut Run, replay: Option<&std::path::Path>) -> anyhow::Resul
     let script: Option<Vec<String>> = replay.map(|p| std::fs::read_to_string(p).map(|s| s.lines().map(|l| l.to_string()).collect())).transpose()?;
     for h in 0..(if script.is_some() { 1 } else { nhist }) {
         let seed = run.seed ^ ((h as u64) << 8);
+        run.mark(&format!("scenario admission history {h} seed {} (re-run with ./check C10 --seed <seed>)", run.seed));
         let mut limit: Option<usize> = *rng.pick(&[None, Some(0), Some(1), Some(1), Some(2), Some(2), Some(3), Some(5)]);
         let ndial = 4 + rng.below(5) as u16;
         let len = 8 + rng.below(18);
